@@ -8,6 +8,7 @@ require (
 	github.com/indexsupply/shovel v0.0.0
 	github.com/jackc/pgx/v5 v5.6.0
 	golang.org/x/crypto v0.24.0
+	nhooyr.io/websocket v1.8.10
 )
 
 require (
@@ -23,7 +24,6 @@ require (
 	golang.org/x/sys v0.21.0 // indirect
 	golang.org/x/text v0.16.0 // indirect
 	kr.dev/errorfmt v0.1.1 // indirect
-	nhooyr.io/websocket v1.8.10 // indirect
 )
 
 replace github.com/indexsupply/shovel => /repo
